@@ -146,7 +146,28 @@ end QmiModel.PubSub
 
 namespace QmiModel.PubSub
 
-/-- steps other than `micro` and a failed `cb` send do not touch `lsubs` / `pobj` -/
+/-- `_SocketManager.send_message` touches connections only -/
+theorem smSendStep_frame {s s1 : State} {c : Ctx} {d : Peer} {m : Msg} {ok : Bool} {pr : List MOp}
+    (h : smSendStep s c d m ok = some (s1, pr)) :
+    s1.ctx = s.ctx ∧ s1.prog = s.prog ∧ s1.snaps = s.snaps ∧ s1.nextConn = s.nextConn ∧ s1.nextSeq = s.nextSeq
+      ∧ (pr = [] ∨ pr = onSendFail m) := by
+  unfold smSendStep at h
+  dsimp only at h
+  split at h
+  · simp only [Option.some.injEq, Prod.mk.injEq] at h
+    obtain ⟨rfl, rfl⟩ := h
+    simp
+  · split at h
+    · simp only [Option.some.injEq, Prod.mk.injEq] at h
+      obtain ⟨rfl, rfl⟩ := h
+      simp
+    · split at h
+      · simp at h
+      · simp only [Option.some.injEq, Prod.mk.injEq] at h
+        obtain ⟨rfl, rfl⟩ := h
+        simp
+
+/-- steps other than `micro` do not touch `lsubs` / `pobj` -/
 theorem setsInv_step {s s' : State} {a : Act} {o : Out} (h : SetsInv s) (hs : step s a = some (s', o)) : SetsInv s' := by
   have hl := h.lsubs
   have hr := h.rcvs
@@ -168,24 +189,13 @@ theorem setsInv_step {s s' : State} {a : Act} {o : Out} (h : SetsInv s) (hs : st
     split at hs
     · split at hs
       · simp at hs
-      · simp only [smSendStep] at hs
-        split at hs
-        · split at hs
-          · simp at hs
-          · rename_i x heq
-            split at heq
-            · simp at heq; obtain ⟨rfl, rfl⟩ := heq
-              simp at hs; obtain ⟨rfl, -⟩ := hs
-              constructor <;> intro c' <;> simp <;> (try split) <;> intros <;> first | exact hl _ _ | exact hr _ _ _ ‹_›
-            · split at heq
-              · simp at heq; obtain ⟨rfl, rfl⟩ := heq
-                simp at hs; obtain ⟨rfl, -⟩ := hs
-                constructor <;> intro c' <;> simp <;> (try split) <;> intros <;> first | exact hl _ _ | exact hr _ _ _ ‹_›
-              · split at heq
-                · simp at heq
-                · simp at heq; obtain ⟨rfl, rfl⟩ := heq
-                  simp at hs; obtain ⟨rfl, -⟩ := hs
-                  constructor <;> intro c' <;> simp <;> (try split) <;> intros <;> first | exact hl _ _ | exact hr _ _ _ ‹_›
+      · split at hs
+        · simp at hs
+        · rename_i heq
+          obtain ⟨hc, -, -, -, -, -⟩ := smSendStep_frame heq
+          simp only [Option.some.injEq, Prod.mk.injEq] at hs
+          obtain ⟨rfl, -⟩ := hs
+          constructor <;> intro c' <;> simp [hc] <;> (try split) <;> intros <;> first | exact hl _ _ | exact hr _ _ _ ‹_›
       · split at hs
         all_goals
           simp at hs; obtain ⟨rfl, -⟩ := hs
